@@ -49,8 +49,23 @@ class PointTopology:
         cols_extend = cols.extend
         u_extend = u.extend
 
+        # The node identifiers are now one-based. When the number of
+        # mesh nodes is known, every node gets a row (a node that is
+        # not referenced by the connectivity array is connected to no
+        # other node), otherwise only the nodes that are referenced by
+        # the (non-missing elements of the) connectivity array do.
+        n_mesh_nodes = self.shape[0]
+        if isnan(n_mesh_nodes):
+            if masked:
+                node_ids = np.unique(node_connectivity.compressed()).tolist()
+            else:
+                node_ids = np.unique(node_connectivity).tolist()
+        else:
+            node_ids = range(1, n_mesh_nodes + 1)
+            largest_node_id = max(largest_node_id, n_mesh_nodes)
+
         # WARNING (TODO): This loop is a potential performance bottleneck.
-        for node in np.unique(node_connectivity).tolist():
+        for node in node_ids:
             # Find the collection of all nodes that are joined to this
             # node via links in the mesh, including this node itself
             # (which will be at the start of the list).
@@ -76,8 +91,9 @@ class PointTopology:
         # Mask all zeros
         u = np.ma.where(u == 0, np.ma.masked, u)
 
-        if not start_index:
-            # Subtract 1 to get back to zero-based node identities
-            u -= 1
+        # Subtract 1 to get zero-based node identities (the node
+        # identifiers are one-based at this point, whatever the start
+        # index of the connectivity array)
+        u -= 1
 
         return u
